@@ -330,31 +330,46 @@ func Ambiguous(tx Tx) bool {
 }
 
 // ToLib builds the library object for a model through the exported API only.
-// Canary returns a copy of b that owns 16 bytes of spare capacity holding a self-describing
-// pattern (8 magic bytes and the length of b). Code that is handed the slice and appends to it
-// without taking ownership - `append(callersSlice, more...)` - writes into that spare capacity:
-// the caller's slice header does not change, the bytes behind it do. CanaryDamaged tells.
+// Canary returns a copy of b that owns 32 bytes of spare capacity holding a self-describing
+// pattern: the length of b, eight filler bytes, and a 16-byte magic at the very end. Code that is
+// handed the slice and appends to it without taking ownership - `append(callersSlice, more...)` -
+// writes into that spare capacity from its start: the caller's slice header does not change, the
+// bytes behind it do. CanaryDamaged tells. (A slice is recognised as one of these by its spare
+// capacity of exactly 32 bytes ending in the second half of the magic, so a foreign slice that
+// happens to have 32 spare bytes is never judged; a write longer than 24 bytes is not recognised.)
 func Canary(b []byte) []byte {
-	buf := make([]byte, len(b)+16)
+	buf := make([]byte, len(b)+canaryLen)
 	copy(buf, b)
 	copy(buf[len(b):], canaryTail(len(b)))
 	return buf[:len(b)]
 }
 
+const canaryLen = 32
+
+var canaryMagic = []byte{0xc5, 0x3a, 0x96, 0x69, 0x5c, 0xa3, 0x0f, 0xf0, 0x1e, 0xe1, 0x2d, 0xd2, 0x4b, 0xb4, 0x87, 0x78}
+
 func canaryTail(n int) []byte {
-	t := []byte{0xc5, 0x3a, 0x96, 0x69, 0x5c, 0xa3, 0x0f, 0xf0, 0, 0, 0, 0, 0, 0, 0, 0}
-	binary.LittleEndian.PutUint64(t[8:], uint64(n))
+	t := make([]byte, canaryLen)
+	binary.LittleEndian.PutUint64(t, uint64(n))
+	for i := 8; i < 16; i++ {
+		t[i] = 0xa5
+	}
+	copy(t[16:], canaryMagic)
 	return t
 }
 
 // CanaryDamaged reports whether a slice made by Canary still has its original length and
-// capacity but no longer its pattern. Slices that were legitimately replaced, grown or
-// re-allocated (different spare capacity) are not judged.
+// capacity but no longer its pattern. Slices that were replaced, grown or re-allocated, and
+// slices that are not recognisably made by Canary, are not judged.
 func CanaryDamaged(b []byte) bool {
-	if cap(b)-len(b) != 16 {
+	if cap(b)-len(b) != canaryLen {
 		return false
 	}
-	return !bytes.Equal(b[len(b):cap(b)], canaryTail(len(b)))
+	tail := b[len(b):cap(b)]
+	if !bytes.Equal(tail[24:], canaryMagic[8:]) {
+		return false
+	}
+	return !bytes.Equal(tail, canaryTail(len(b)))
 }
 
 // CanaryDamage names the first script or txid of a library transaction built by ToLib whose
@@ -380,6 +395,16 @@ func CanaryDamage(tx *bt.Tx) string {
 		}
 	}
 	return ""
+}
+
+// Intact is CanaryDamage as an invariant for pbt.Ctx.After.
+func Intact(tx *bt.Tx) func() error {
+	return func() error {
+		if d := CanaryDamage(tx); d != "" {
+			return errors.New("a slice the caller handed in was written to beyond its length: " + d)
+		}
+		return nil
+	}
 }
 
 // ToLib builds the library object of a model. Every byte slice it hands over is the caller's
